@@ -192,8 +192,17 @@ def check(spec, ctx):
     bound = nitems + 3
     cs = {c["name"]: CC(c, k, log, bound) for k, c in enumerate(spec["comps"])}
     comp = fm.Composition([cs[n] for n in spec["order"]], print_log=False)
+    hubs = {}  # outputs whose consumers all hang behind ONE shared pull-based pass-through adapter (branching behind it)
     for a, ao, b, bi in spec["links"]:
-        cs[a].outputs[ao] >> cs[b].inputs[bi]
+        if [a, ao] in spec.get("hubs", []):
+            if (a, ao) not in hubs:
+                hubs[(a, ao)] = fm.adapters.Scale(1.0)
+                cs[a].outputs[ao] >> hubs[(a, ao)]
+            hubs[(a, ao)] >> cs[b].inputs[bi]
+        else:
+            cs[a].outputs[ao] >> cs[b].inputs[bi]
+    if hubs:
+        ctx.event("branching-behind-adapter" if any(sum(1 for l in spec["links"] if (l[0], l[1]) == k) > 1 for k in hubs) else "adapter-on-link")
     exp = fixpoint(spec)
     allc = {c["name"] for c in spec["comps"]}
     t0 = hs.tm(min(c["start"] for c in spec["comps"]))
@@ -315,6 +324,10 @@ def shape(draw):
             elif r < 9 and c["ins"]:
                 o["info"] = "after_in:" + draw(st.sampled_from(c["ins"]))["name"]
     spec = {"comps": comps, "links": list(draw(st.permutations(links))), "order": list(draw(st.permutations(names)))}
+    used = sorted({(l[0], l[1]) for l in links})
+    hubs = [list(k) for k in used if draw(st.integers(0, 3)) == 0]
+    if hubs:
+        spec["hubs"] = hubs
     if draw(st.integers(0, 2)) == 0:
         spec = _shared_names(spec)
     return spec
@@ -331,7 +344,10 @@ def _shared_names(spec):
     for c in spec["comps"]:
         comps.append(dict(c, ins=[dict(i, name=ren(i["name"]), info=ref(i["info"])) for i in c["ins"]],
                           outs=[dict(o, name=ren(o["name"]), info=ref(o["info"]), data=ref(o["data"])) for o in c["outs"]]))
-    return {"comps": comps, "links": [[a, ren(ao), b, ren(bi)] for a, ao, b, bi in spec["links"]], "order": spec["order"], "shared_names": True}
+    out = {"comps": comps, "links": [[a, ren(ao), b, ren(bi)] for a, ao, b, bi in spec["links"]], "order": spec["order"], "shared_names": True}
+    if spec.get("hubs"):
+        out["hubs"] = [[a, ren(ao)] for a, ao in spec["hubs"]]
+    return out
 
 
 @st.composite
